@@ -48,7 +48,7 @@ STD = {"level": "Informational", "version": "1.0.30", "task": "verif_task", "op"
 MULT = {"level": 1, "message": 1, "version": 1, "task": 1, "op": 1, "ts": 2}
 PARAMS_OF = {"level": ["CapabilityUsed"], "message": ["Context1"], "version": ["GAVersion"], "task": ["TaskName"],
              "op": ["Context3"], "ts": ["OpcodeName", "Context2"], "pid": ["EventPid"], "tid": ["EventTid"]}
-FAIL_KINDS = ["503", "500", "400", "reset", "close"]
+FAIL_KINDS = ["503", "500", "400", "429", "reset", "close"]
 BAD_FILES = ["not json", "", "[{", '[{"EventLevel": 1}]', '[{"Message": "\\ud800"}]', "{}"]
 
 
@@ -504,7 +504,13 @@ def random_case(rnd, cal, tag, thorough):
         else:
             replies += [rnd.choice(FAIL_KINDS)] * rnd.choice([1, 4, 5, 6, 9]) + ["ok"] * rnd.randint(1, 3)
     replies = replies[:400]
-    return {"id": tag, "files": sfiles, "replies": replies, "default_reply": rnd.choice(["ok", "503"]),
+    stuck = None
+    if tag.startswith("stuck"):
+        # the host answers every post the same way for good (down, or throttling): "any pattern of upload failures" includes
+        # the patterns that never end; processing still terminates and removes what it consumed
+        stuck = FAIL_KINDS[int(tag[5:]) % len(FAIL_KINDS)]
+        replies = []
+    return {"id": tag, "files": sfiles, "replies": replies, "default_reply": stuck or rnd.choice(["ok", "503", "429"]),
             "post_limit": 5 * (eid + 1) + 10,
             "meta": {"tag": tag, "files": files, "kind": "random", "expect": None}}
 
@@ -731,9 +737,12 @@ def run(c):
     cases = [concretise(rnd, b, cal, "g%d" % i) for i, b in enumerate(picked)]
     nrand = 300 if thorough else 36
     cases += [random_case(rnd, cal, "r%d" % i, thorough) for i in range(nrand)]
+    cases += [random_case(rnd, cal, "stuck%d" % i, thorough) for i in range(len(FAIL_KINDS) * (1 if not thorough else 4))]
     t = util.Timer()
     observed, panics = run_cases(c, cases, bindir, cal, "c18_run")
     util.log("replayed %d cases in %ss" % (len(cases), t.s()))
+    c.extra["hosts_failing_for_good"] = {cs["default_reply"]: {"posts": o["nposts"], "ended": o["reason"]}
+                                         for cs, o in zip(cases, observed) if cs["id"].startswith("stuck") and o}
     if panics:
         c.extra["panics"] = [{"location": p.get("location"), "message": str(p.get("message"))[:200]} for p in panics[:5]]
 
